@@ -15,7 +15,7 @@ let runes_sep sep l = S.concat sep (L.map (fun n -> string_of_int (int_of_n n)) 
 let runes l = runes_sep "," l
 let fields c s = L.filter (fun s -> s <> "") (S.split_on_char c s)
 let unrunes s = L.map (fun x -> n_of_int (int_of_string x)) (L.concat_map (fields ' ') (fields ',' s))
-let of_ascii s = L.init (S.length s) (fun i -> n_of_int (Char.code s.[i]))
+let of_ascii s = L.init (S.length s) (fun i -> n_of_int (Char.code (S.get s i)))
 
 let each_line f = try while true do f (input_line stdin) done with End_of_file -> ()
 
@@ -33,7 +33,7 @@ let typo () =
   let parse_item it =
     let body = S.sub it 2 (S.length it - 2) in
     let rs = unrunes body in
-    match it.[0] with 'T' -> Typo.IText rs | 'E' -> Typo.IEsc rs | _ -> Typo.IOther (N0, rs) in
+    match (S.get it 0) with 'T' -> Typo.IText rs | 'E' -> Typo.IEsc rs | _ -> Typo.IOther (N0, rs) in
   each_line (fun l ->
     let items = L.map parse_item (fields ' ' l) in
     let (fr, errs) = Typo.french items in
@@ -78,5 +78,45 @@ let uni () = each_line (fun l ->
   let c = n_of_int (int_of_string (S.trim l)) in
   Printf.printf "%b %b\n" (Unicode.is_space c) (Unicode.is_punct c))
 
+(* ---- e2e: "<f><mode>[x] r1 r2 ... [| F name=content]* [| L dir]*" -> "OK path=runes;... | diags"  or "PANIC runes" *)
+let split_on_str sep s =
+  let n = S.length sep in
+  let rec go acc i j =
+    if j + n > S.length s then L.rev (S.sub s i (S.length s - i) :: acc)
+    else if S.sub s j n = sep then go (S.sub s i (j - i) :: acc) (j + n) (j + n)
+    else go acc i (j + 1) in
+  go [] 0 0
+let e2e () = each_line (fun l ->
+  let parts = split_on_str " | " l in
+  let hd = S.trim (L.hd parts) in
+  let (f, rest) = match S.index_opt hd ' ' with Some i -> (S.sub hd 0 i, S.sub hd (i + 1) (S.length hd - i - 1)) | None -> (hd, "") in
+  let rs = unrunes rest in
+  let name = match (S.get f 0) with 'l' -> "latex" | 'm' -> "mom" | 'k' -> "markdown" | 'e' -> "epub" | _ -> "xhtml" in
+  let md = if S.length f > 1 && (S.get f 1) >= '0' && (S.get f 1) <= '9' then Char.code (S.get f 1) - 48 else 0 in
+  let md = if (S.get f 0) = 'e' then 3 else md in
+  let unr = S.contains f 'x' && (S.index f 'x' > 0 || S.length f > 1 && S.contains (S.sub f 1 (S.length f - 1)) 'x') in
+  let unr = unr && S.contains (S.sub f 1 (S.length f - 1)) 'x' in
+  let main = of_ascii "w/d.frundis" in
+  let files = ref [(main, rs)] and libs = ref [] in
+  L.iter (fun p ->
+    let p = S.trim p in
+    if S.length p > 2 && (S.get p 0) = 'F' then begin
+      match S.index_opt p '=' with
+      | Some i -> files := !files @ [(unrunes (S.sub p 2 (i - 2)), unrunes (S.sub p (i + 1) (S.length p - i - 1)))]
+      | None -> () end
+    else if S.length p > 2 && (S.get p 0) = 'L' then libs := !libs @ [unrunes (S.sub p 2 (S.length p - 2))]) (L.tl parts);
+  let wd = Loop.{ w_existing = L.map of_ascii ["i.png"; "i.pdf"; "i.eps"; "img.png"]; w_fs = !files; w_libdirs = !libs; w_unrestricted = unr } in
+  let s = Loop.compile_source (of_ascii name) (nat_of_int md) wd main in
+  match s.St.panicked with
+  | Some m -> Printf.printf "PANIC %s\n" (runes m)
+  | None ->
+    let ds = L.map (fun d ->
+        Printf.sprintf "%s;%s;%s;%s;%s"
+          (match d.St.d_line with Some n -> string_of_int (int_of_nat n) | None -> "EOF")
+          (match d.St.d_user with Some u -> runes u | None -> "-")
+          (runes d.St.d_macro) (runes d.St.d_kind) (runes d.St.d_file)) s.St.diags in
+    let fs = S.concat ";" (L.map (fun (p, c) -> runes p ^ "=" ^ runes c) s.St.files) in
+    Printf.printf "OK %s | %s\n" fs (S.concat " " ds))
+
 let table : (string * (unit -> unit)) list ref = ref
-  ["reflow", reflow; "typo", typo; "parse", parse; "path", path; "esc", esc; "uni", uni]
+  ["reflow", reflow; "typo", typo; "parse", parse; "path", path; "esc", esc; "uni", uni; "e2e", e2e]
